@@ -53,6 +53,52 @@ Variable m : matcher.
 Lemma lookup_nil fa f path caps : lookup fa (S f) m (@nil (pat * node)) path caps = RNotFound true.
 Proof. destruct path; reflexivity. Qed.
 
+Lemma lookup_cons fa f (d : db) c rest caps :
+  lookup fa (S f) m d (c :: rest) caps =
+  let path := c :: rest in
+  let r1 := let d1 := deriv (L c) d in
+            if is_nil d1 then RNotFound true else lookup fa f m d1 rest caps in
+  match r1 with
+  | RNotFound true =>
+    let r2 := let dw := deriv W d in
+              if is_nil dw then RNotFound true
+              else let (seg, rest') := take_seg path in
+                   match seg with
+                   | [] => RNotFound true
+                   | _ => lookup fa f m dw rest' (caps ++ [seg])
+                   end in
+    match r2 with
+    | RNotFound true =>
+      match here (deriv C d) with
+      | Some n =>
+        let caps' := caps ++ [path] in
+        let accepts v := if fa then m v (parent_keys d) caps else m v (keys n) caps' in
+        match find accepts (vals n) with
+        | Some v => RFound v (keys n) caps'
+        | None => RNotFound (if fa then parent_flag d else flag n)
+        end
+      | None => RNotFound true
+      end
+    | _ => r2
+    end
+  | _ => r1
+  end.
+Proof. reflexivity. Qed.
+
+Lemma lookup_nilpath fa f (d : db) caps :
+  lookup fa (S f) m d [] caps =
+  match here d with
+  | Some n => match vals n with
+              | [] => RNotFound true
+              | _ => match find (fun v => m v (keys n) caps) (vals n) with
+                     | Some v => RFound v (keys n) caps
+                     | None => RNotFound (flag n)
+                     end
+              end
+  | None => RNotFound true
+  end.
+Proof. reflexivity. Qed.
+
 Lemma lookup_or_nil fa f (d : db) path caps :
   (if is_nil d then RNotFound true else lookup fa (S f) m d path caps) = lookup fa (S f) m d path caps.
 Proof. destruct d; [rewrite lookup_nil|]; reflexivity. Qed.
@@ -405,12 +451,12 @@ Proof.
   apply andb_true_iff in Hwf as [Hwf Hs]. apply andb_true_iff in Hwf as [Hi Hk].
   destruct path as [|c rest].
   - (* the path ends here *)
-    rewrite find_node_nil. cbn [lookup length]. rewrite (here_abs n Hs). cbn [n t_vals t_keys t_bt vals keys flag].
+    rewrite find_node_nil. cbn [length]. rewrite lookup_nilpath. rewrite (here_abs n Hs). cbn [n t_vals t_keys t_bt vals keys flag].
     destruct vs as [|v0 vs']; [split; [reflexivity | intros caps' H; inversion H; reflexivity]|].
     cbn [vals keys flag].
     destruct (find _ (v0 :: vs')); [split; [reflexivity | discriminate]|].
     split; [reflexivity | intros caps' H; inversion H; reflexivity].
-  - rewrite find_node_cons. cbv zeta. cbn [lookup length].
+  - rewrite find_node_cons. cbn [length]. rewrite lookup_cons. cbv zeta.
     rewrite (deriv_L_abs c n Hi Hs), (deriv_W_abs n Hs), (deriv_C_abs n Hs).
     cbn [n t_statics t_wild t_catch t_vals t_keys t_bt].
     (* static child *)
@@ -456,11 +502,8 @@ Proof.
                             end
                | None => None
                end).
-    set (r2 := if is_nil match w with Some w0 => abs w0 | None => [] end then RNotFound true
-               else match seg with
-                    | [] => RNotFound true
-                    | _ :: _ => lookup (negb fx) (S (length rest)) m match w with Some w0 => abs w0 | None => [] end rest' (caps ++ [seg])
-                    end).
+    fold wl.
+    set (r2 := if is_nil match w with Some w0 => abs w0 | None => [] end then RNotFound true else _).
     assert (HW : match wl with Some r => r2 = to_res r /\ r2 <> RNotFound true | None => r2 = RNotFound true end).
     { subst wl r2. destruct w as [w0|]; [|reflexivity]. cbn [opt_P] in IHw. cbn [wf_wild] in Hww.
       destruct seg as [|x seg']; [destruct (is_nil (abs w0)); reflexivity|].
@@ -468,11 +511,12 @@ Proof.
       assert (Hlen : length rest' < length (c :: rest)) by (apply Hl; discriminate). cbn [length] in Hlen.
       destruct (IHw Hww rest' (caps ++ [x :: seg'])) as [H1 _].
       rewrite (lookup_fuel_irrel V m (negb fx) (S (length rest)) (S (length rest'))) by lia.
-      rewrite <- H1. destruct (find_node fx fx true m w0 rest' (caps ++ [x :: seg'])) as [v ks' caps''|caps'' [|]]; cbn [to_res].
+      set (R := lookup _ _ _ (abs w0) rest' _) in *. clearbody R. subst R.
+      destruct (find_node fx fx true m w0 rest' _) as [v ks' caps''|caps'' [|]]; cbn [to_res].
       - split; [reflexivity | discriminate].
       - reflexivity.
       - split; [reflexivity | discriminate]. }
-    fold wl. fold r2.
+    clearbody wl r2.
     destruct wl as [r|].
     { destruct HW as [HW1 HW2]. rewrite HW1.
       destruct r as [v ks' caps''|caps'' [|]]; cbn [to_res] in *; [split; [reflexivity|discriminate] | congruence | split; [reflexivity|discriminate]]. }
@@ -490,6 +534,225 @@ Proof.
     rewrite (find_ext _ _ (t_vals cn) Hacc).
     destruct (find _ (t_vals cn)); [split; [reflexivity | discriminate]|].
     split; [destruct fx; reflexivity | intros caps' H; inversion H; reflexivity].
+Qed.
+
+(** [Find] on a well-formed tree is the machine's [Find] on its abstraction *)
+Corollary tree_find_refines fx (t : tree) path : wfb t = true ->
+  tree_find fx fx true m t path = find_in (negb fx) (abs t) path m.
+Proof.
+  intro H. unfold tree_find, find_in, find_res. destruct (find_refines fx t H path []) as [H1 _].
+  rewrite <- H1. destruct (find_node fx fx true m t path []); reflexivity.
+Qed.
+
+(** ** conditions that do not look at captures: the capture switches are invisible *)
+
+Definition strip (r : fres V) : fres V :=
+  match r with FFound v ks _ => FFound v ks [] | FNot _ b => FNot [] b end.
+
+Hypothesis m_cond : cond_only m.
+
+Definition caps_blind_at (fx1 fx2 fx5 fx2' fx5' : bool) (n : tree) : Prop :=
+  forall path caps1 caps2,
+    strip (find_node fx1 fx2 fx5 m n path caps1) = strip (find_node fx1 fx2' fx5' m n path caps2).
+
+Lemma strip_found_inv r v ks caps : strip r = strip (FFound v ks caps) -> exists caps', r = FFound v ks caps'.
+Proof. destruct r; simpl; intro H; inversion H; eauto. Qed.
+
+Lemma strip_not_inv r caps b : strip r = strip (FNot caps b) -> exists caps', r = FNot caps' b.
+Proof. destruct r; simpl; intro H; inversion H; eauto. Qed.
+
+Theorem find_node_caps_blind fx1 fx2 fx5 fx2' fx5' : forall n : tree, caps_blind_at fx1 fx2 fx5 fx2' fx5' n.
+Proof.
+  intro n. pattern n. apply tree_ind'. clear n.
+  intros p st w cc vs ks b IHst IHw IHc path caps1 caps2.
+  set (n := Node p st w cc vs ks b) in *.
+  destruct path as [|c rest].
+  - rewrite !find_node_nil. cbn [n t_vals t_keys t_bt]. destruct vs as [|v0 vs']; [reflexivity|].
+    rewrite (find_ext (fun v => m v ks caps1) (fun v => m v ks caps2)) by (intro v; apply m_cond).
+    destruct (find _ (v0 :: vs')); reflexivity.
+  - rewrite !find_node_cons. cbv zeta. cbn [n t_statics t_wild t_catch t_keys t_bt].
+    (* static child *)
+    set (s1 := match find_static c st with
+               | Some child => if is_prefix (t_path child) (c :: rest)
+                               then find_node fx1 fx2 fx5 m child (skipn (length (t_path child)) (c :: rest)) caps1
+                               else FNot caps1 true
+               | None => FNot caps1 true
+               end).
+    set (s2 := match find_static c st with
+               | Some child => if is_prefix (t_path child) (c :: rest)
+                               then find_node fx1 fx2' fx5' m child (skipn (length (t_path child)) (c :: rest)) caps2
+                               else FNot caps2 true
+               | None => FNot caps2 true
+               end).
+    assert (HS : strip s1 = strip s2).
+    { subst s1 s2. destruct (find_static c st) as [ch|] eqn:Ef; [|reflexivity].
+      apply find_static_in in Ef. rewrite Forall_forall in IHst. specialize (IHst (c, ch) Ef). cbn [snd] in IHst.
+      destruct (is_prefix (t_path ch) (c :: rest)); [apply IHst | reflexivity]. }
+    clearbody s1 s2.
+    destruct s2 as [v2 ks2 cp2 | cp2 b2].
+    { apply strip_found_inv in HS as [cp1 ->]. reflexivity. }
+    apply strip_not_inv in HS as [cp1 ->]. destruct b2; [|reflexivity].
+    (* single wildcard *)
+    destruct (take_seg (c :: rest)) as [seg rest'].
+    set (w1 := match w with
+               | Some w0 => match seg with
+                            | [] => None
+                            | _ :: _ => match find_node fx1 fx2 fx5 m w0 rest' (cp1 ++ [seg]) with
+                                        | FNot _ true => None
+                                        | FNot _ false => Some (FNot [] false)
+                                        | r => Some r
+                                        end
+                            end
+               | None => None
+               end).
+    set (w2 := match w with
+               | Some w0 => match seg with
+                            | [] => None
+                            | _ :: _ => match find_node fx1 fx2' fx5' m w0 rest' (cp2 ++ [seg]) with
+                                        | FNot _ true => None
+                                        | FNot _ false => Some (FNot [] false)
+                                        | r => Some r
+                                        end
+                            end
+               | None => None
+               end).
+    assert (HW : option_map strip w1 = option_map strip w2).
+    { subst w1 w2. destruct w as [w0|]; [|reflexivity]. destruct seg as [|x seg']; [reflexivity|].
+      cbn [opt_P] in IHw. specialize (IHw rest' (cp1 ++ [x :: seg']) (cp2 ++ [x :: seg'])).
+      destruct (find_node fx1 fx2' fx5' m w0 rest' _) as [v2 ks2 cq2 | cq2 b2];
+        destruct (find_node fx1 fx2 fx5 m w0 rest' _) as [v1 ks1 cq1 | cq1 b1];
+        cbn [strip] in IHw; inversion IHw; subst; [reflexivity|]. destruct b2; reflexivity. }
+    fold w1. fold w2. clearbody w1 w2.
+    destruct w2 as [r2|]; destruct w1 as [r1|]; try discriminate; [cbn [option_map] in HW; inversion HW; reflexivity|].
+    (* free wildcard *)
+    destruct cc as [cn|]; [|reflexivity].
+    rewrite (find_ext (fun v => if fx2 then m v (t_keys cn) (cp1 ++ [c :: rest]) else m v ks cp1)
+                      (fun v => if fx2' then m v (t_keys cn) (cp2 ++ [c :: rest]) else m v ks cp2))
+      by (intro v; destruct fx2, fx2'; apply m_cond).
+    destruct (find _ (t_vals cn)); reflexivity.
+Qed.
+
+(** the tree as it is (no repair at all) finds the value the faithful machine finds *)
+Definition found_strip (f : found V) : option (V * list str) :=
+  match f with Found v ks _ => Some (v, ks) | NoMatch => None end.
+
+Theorem tree_as_is_refines (fx1 : bool) (t : tree) path : wfb t = true ->
+  found_strip (tree_find fx1 false false m t path) = found_strip (find_in (negb fx1) (abs t) path m).
+Proof.
+  intro H. rewrite <- (tree_find_refines fx1 t path H). unfold tree_find.
+  pose proof (find_node_caps_blind fx1 false false fx1 true t path [] []) as HB.
+  destruct (find_node fx1 fx1 true m t path []) as [v ks cp | cp b].
+  - apply strip_found_inv in HB as [cp' ->]. reflexivity.
+  - apply strip_not_inv in HB as [cp' ->]. reflexivity.
+Qed.
+
+(** ** the abstraction of a well-formed tree is a machine state: one entry per
+    expression, no empty entry *)
+
+Lemma NoDup_app_intro {A} (l1 l2 : list A) :
+  NoDup l1 -> NoDup l2 -> (forall x, In x l1 -> In x l2 -> False) -> NoDup (l1 ++ l2).
+Proof.
+  intros H1 H2 H. induction H1 as [|x r Hx Hr IH]; [exact H2|]. simpl. constructor.
+  - intro Hin. apply in_app_or in Hin as [Hin|Hin]; [auto|]. apply (H x); [left; reflexivity | assumption].
+  - apply IH. intros y Hy. apply H. right. assumption.
+Qed.
+
+Definition hd_tok (p : pat) : option tok := match p with [] => None | t :: _ => Some t end.
+
+Lemma fst_pre q (D : db) : map fst (map (pre q) D) = map (app q) (map fst D).
+Proof. rewrite !map_map. apply map_ext. intros [p a]. reflexivity. Qed.
+
+Lemma NoDup_map_app (q : pat) (l : list pat) : NoDup l -> NoDup (map (app q) l).
+Proof.
+  intro H. apply FinFun.Injective_map_NoDup; [|exact H]. intros x y E. eapply app_inv_head. exact E.
+Qed.
+
+Lemma in_abs_statics_hd l e : wf_statics l = true -> In e (abs_statics l) ->
+  exists d, hd_tok (fst e) = Some (L d) /\ existsb (fun x : ascii * tree => Ascii.eqb d (fst x)) l = true.
+Proof.
+  induction l as [|[d ch] r IH]; [intros _ []|]. cbn [wf_statics forallb fst snd]. intros H Hin.
+  apply andb_true_iff in H as [H Hr]. apply andb_true_iff in H as [Hs _].
+  apply starts_with_cons in Hs as [p' Hp]. cbn [abs_statics flat_map snd] in Hin.
+  apply in_app_or in Hin as [Hin|Hin].
+  - apply in_map_iff in Hin as ([q a] & <- & _). rewrite Hp. exists d. split; [reflexivity|].
+    cbn [existsb fst]. rewrite Ascii.eqb_refl. reflexivity.
+  - destruct (IH Hr Hin) as (d' & H1 & H2). exists d'. split; [assumption|]. cbn [existsb]. rewrite H2. apply orb_true_r.
+Qed.
+
+Lemma abs_statics_NoDup l :
+  indices_distinct V l = true -> wf_statics l = true ->
+  Forall (fun x => wfb (snd x) = true -> NoDup (map fst (abs (snd x)))) l ->
+  NoDup (map fst (abs_statics l)).
+Proof.
+  induction l as [|[d ch] r IH]; [constructor|].
+  cbn [indices_distinct wf_statics forallb fst snd]. intros Hi H HF.
+  apply andb_true_iff in Hi as [Hn Hi]. apply negb_true_iff in Hn.
+  apply andb_true_iff in H as [H Hr]. apply andb_true_iff in H as [Hs Hw].
+  inversion HF as [|x l' Hch HFr]; subst. cbn [snd] in Hch.
+  cbn [abs_statics flat_map snd]. rewrite map_app. apply NoDup_app_intro.
+  - rewrite fst_pre. apply NoDup_map_app. auto.
+  - apply IH; assumption.
+  - intros q Hq1 Hq2. apply starts_with_cons in Hs as [p' Hp].
+    apply in_map_iff in Hq1 as (e1 & <- & He1). apply in_map_iff in He1 as ([q1 a1] & <- & _).
+    apply in_map_iff in Hq2 as (e2 & Heq & He2).
+    destruct (in_abs_statics_hd r e2 Hr He2) as (d' & Hh & Hex).
+    rewrite Heq in Hh. unfold pre in Hh. cbn [fst] in Hh. rewrite Hp in Hh. cbn in Hh. inversion Hh; subst d'.
+    congruence.
+Qed.
+
+Lemma here_entry_NoDup (n : tree) : NoDup (map fst (here_entry n)).
+Proof. unfold here_entry. destruct (t_vals n); simpl; repeat constructor. auto. Qed.
+
+Lemma in_here_entry (n : tree) e : In e (here_entry n) -> fst e = [].
+Proof. unfold here_entry. destruct (t_vals n); [intros [] | intros [<-|[]]; reflexivity]. Qed.
+
+Theorem abs_NoDup : forall n : tree, wfb n = true -> NoDup (map fst (abs n)).
+Proof.
+  intro n. pattern n. apply tree_ind'. clear n.
+  intros p st w cc vs ks b IHst IHw IHc Hwf.
+  set (n := Node p st w cc vs ks b) in *.
+  rewrite wfb_unfold in Hwf. cbn [n t_statics t_wild t_vals t_keys] in Hwf.
+  apply andb_true_iff in Hwf as [Hwf Hcc]. apply andb_true_iff in Hwf as [Hwf Hww].
+  apply andb_true_iff in Hwf as [Hwf Hs]. apply andb_true_iff in Hwf as [Hi Hk].
+  rewrite abs_unfold. cbn [n t_statics t_wild t_catch]. rewrite !map_app.
+  assert (Hhd_w : forall q, In q (map fst (abs_wild w)) -> hd_tok q = Some W).
+  { intros q Hq. destruct w as [w0|]; [|destruct Hq]. cbn [abs_wild] in Hq. rewrite fst_pre in Hq.
+    apply in_map_iff in Hq as (q' & <- & _). reflexivity. }
+  assert (Hhd_c : forall q, In q (map fst (abs_catch cc)) -> hd_tok q = Some C).
+  { intros q Hq. destruct cc as [c0|]; [|destruct Hq]. cbn [abs_catch] in Hq. rewrite fst_pre in Hq.
+    apply in_map_iff in Hq as (q' & <- & _). reflexivity. }
+  assert (Hhd_s : forall q, In q (map fst (abs_statics st)) -> exists d, hd_tok q = Some (L d)).
+  { intros q Hq. apply in_map_iff in Hq as (e & <- & He). destruct (in_abs_statics_hd st e Hs He) as (d & H1 & _). eauto. }
+  apply NoDup_app_intro; [apply here_entry_NoDup | |].
+  - apply NoDup_app_intro; [apply abs_statics_NoDup; assumption | |].
+    + apply NoDup_app_intro.
+      * destruct w as [w0|]; [|constructor]. cbn [abs_wild]. rewrite fst_pre. apply NoDup_map_app. apply IHw. exact Hww.
+      * destruct cc as [c0|]; [|constructor]. cbn [abs_catch]. rewrite fst_pre. apply NoDup_map_app. apply here_entry_NoDup.
+      * intros q H1 H2. apply Hhd_w in H1. apply Hhd_c in H2. congruence.
+    + intros q H1 H2. apply Hhd_s in H1 as [d H1]. apply in_app_or in H2 as [H2|H2];
+        [apply Hhd_w in H2 | apply Hhd_c in H2]; congruence.
+  - intros q H1 H2. apply in_map_iff in H1 as (e & <- & He). apply in_here_entry in He. rewrite He in H2.
+    apply in_app_or in H2 as [H2|H2]; [apply Hhd_s in H2 as [d H2]; discriminate|].
+    apply in_app_or in H2 as [H2|H2]; [apply Hhd_w in H2 | apply Hhd_c in H2]; discriminate.
+Qed.
+
+Lemma nonempty_pre q (D : db) : nonempty_db V D -> nonempty_db V (map (pre q) D).
+Proof. unfold nonempty_db. intro H. apply Forall_map. eapply Forall_impl; [|exact H]. intros [p' a] Ha. exact Ha. Qed.
+
+Lemma here_entry_nonempty (n : tree) : nonempty_db V (here_entry n).
+Proof. unfold here_entry, nonempty_db. destruct (t_vals n) eqn:E; constructor; [|constructor]. cbn [snd vals]. discriminate. Qed.
+
+Theorem abs_nonempty : forall n : tree, nonempty_db V (abs n).
+Proof.
+  intro n. pattern n. apply tree_ind'. clear n.
+  intros p st w cc vs ks b IHst IHw IHc. rewrite abs_unfold. cbn [t_statics t_wild t_catch].
+  unfold nonempty_db. apply Forall_app; split; [apply here_entry_nonempty|].
+  apply Forall_app; split.
+  - induction IHst as [|x r Hx Hr IH]; [constructor|]. cbn [abs_statics flat_map]. apply Forall_app; split; [|exact IH].
+    apply nonempty_pre. exact Hx.
+  - apply Forall_app; split.
+    + destruct w as [w0|]; [|constructor]. apply nonempty_pre. exact IHw.
+    + destruct cc as [c0|]; [|constructor]. apply nonempty_pre. apply here_entry_nonempty.
 Qed.
 
 End Refine.
